@@ -1217,6 +1217,10 @@ def array_to_groups_and_locations(
         else:
             groups = array[group_index]
 
+    if unique_axis is None and locations.ndim > 1:
+        # without an axis the values are flattened; the inverse is 1D as well (NumPy 2 shapes it like the array)
+        locations = locations.reshape(-1)
+
     return groups, locations
 
 
